@@ -60,6 +60,9 @@ pub fn check(case: &Case, st: &mut Stats) -> Result<(), String> {
     if case.ctx == "xml-text" {
         return check_xml(case, st);
     }
+    if case.ctx == "xml-seq-text" || case.ctx == "xml-seq-attr" {
+        return check_xml_seq(case);
+    }
     if case.ctx == "table" {
         return check_table();
     }
@@ -114,6 +117,55 @@ fn check_xml(case: &Case, _st: &mut Stats) -> Result<(), String> {
     Ok(())
 }
 
+/// xml5ever: what `s` becomes as element content / as a double-quoted attribute value.
+fn xml_eval(attr: bool, s: &str) -> String {
+    use std::cell::RefCell;
+    use xml5ever::tokenizer::{ProcessResult, Token, TokenSink, XmlTokenizer};
+    struct S(RefCell<String>, bool);
+    impl TokenSink for S {
+        type Handle = ();
+        fn process_token(&self, token: Token) -> ProcessResult<()> {
+            match token {
+                Token::Characters(t) if !self.1 => self.0.borrow_mut().push_str(&t),
+                Token::NullCharacter if !self.1 => self.0.borrow_mut().push('\0'),
+                Token::Tag(t) if self.1 => {
+                    for a in t.attrs.iter() {
+                        if &*a.name.local == "v" {
+                            self.0.borrow_mut().push_str(&a.value);
+                        }
+                    }
+                },
+                _ => {},
+            }
+            ProcessResult::Continue
+        }
+    }
+    let tok = XmlTokenizer::new(S(RefCell::new(String::new()), attr), Default::default());
+    let q = markup5ever::buffer_queue::BufferQueue::default();
+    let doc = if attr { format!("<r v=\"{s}\"/>") } else { format!("<r>{s}</r>") };
+    q.push_back(tendril::StrTendril::from(doc.as_str()));
+    let _ = tok.feed(&q);
+    tok.end();
+    let out = tok.sink.0.borrow().clone();
+    out
+}
+
+/// No state leaks from one reference to the next: two reference-shaped pieces separated by a
+/// space resolve exactly as each does alone (`text` holds the two pieces separated by U+0001).
+fn check_xml_seq(case: &Case) -> Result<(), String> {
+    let attr = case.ctx == "xml-seq-attr";
+    let (a, b) = case.text.split_once('\u{1}').ok_or("bad xml-seq case")?;
+    let whole = xml_eval(attr, &format!("{a} {b}"));
+    let parts = format!("{} {}", xml_eval(attr, a), xml_eval(attr, b));
+    if whole != parts {
+        return Err(format!(
+            "xml5ever: {:?} resolves to {whole:?}, but its two pieces alone resolve to {parts:?} (state leaks between character references)",
+            format!("{a} {b}")
+        ));
+    }
+    Ok(())
+}
+
 /// (0) table identity between web_atoms::NAMED_ENTITIES and the frozen table.
 fn check_table() -> Result<(), String> {
     let e = entities();
@@ -151,7 +203,7 @@ fn check_table() -> Result<(), String> {
 
 pub fn run(ctx: &Ctx) -> Report {
     let mut rep = Report::new(
-        "Exhaustive enumeration: (0) web_atoms::NAMED_ENTITIES vs the frozen Python html.entities.html5 table (every name, every proper prefix, nothing extra); (1) each of the 2231 names and each name truncated by one character x {63 alphanumeric-or-semicolon extensions, 18 other followers incl. EOF, = & < space LF CR NUL quotes # and a following reference} x {data, RCDATA, double-quoted, single-quoted, unquoted attribute value} through html5ever's tokenizer, expected output from the reference character-reference algorithm (longest match over the frozen table, legacy attribute exception, missing-semicolon rule) and directly from the table for exact ';'-terminated names; (2) numeric references: every value 0..=0x110000 as hex with ';' in text, the other forms (decimal, without ';', attribute context, upper-case X) on a stride (quick 1/16, thorough every value), overflow digit strings of 1..24 digits, every value within 130 of 2^k (k up to 65), 10^k and 0x10FFFF in decimal and hex (plus trailing digits / leading zeros), leading zeros, name-character runs of length 2^k-1..2^k+2 up to 2^16 after '&', after a complete entity name and as leading zeros of numeric references, digit-less '&#'/'&#x' with followers; (3) every ';'-terminated name through xml5ever's tokenizer. Non-trivial: every case is a character-reference case; distinct by (context, text).",
+        "Exhaustive enumeration: (0) web_atoms::NAMED_ENTITIES vs the frozen Python html.entities.html5 table (every name, every proper prefix, nothing extra); (1) each of the 2231 names and each name truncated by one character x {63 alphanumeric-or-semicolon extensions, 18 other followers incl. EOF, = & < space LF CR NUL quotes # and a following reference} x {data, RCDATA, double-quoted, single-quoted, unquoted attribute value} through html5ever's tokenizer, expected output from the reference character-reference algorithm (longest match over the frozen table, legacy attribute exception, missing-semicolon rule) and directly from the table for exact ';'-terminated names; (2) numeric references: every value 0..=0x110000 as hex with ';' in text, the other forms (decimal, without ';', attribute context, upper-case X) on a stride (quick 1/16, thorough every value), overflow digit strings of 1..24 digits, every value within 130 of 2^k (k up to 65), 10^k and 0x10FFFF in decimal and hex (plus trailing digits / leading zeros), leading zeros, name-character runs of length 2^k-1..2^k+2 up to 2^16 after '&', after a complete entity name and as leading zeros of numeric references, digit-less '&#'/'&#x' with followers; (3) every ';'-terminated name through xml5ever's tokenizer; every ordered pair of 29 reference-shaped pieces, in element content and in an attribute value, must resolve exactly as each piece does alone (no state leaks between references). Non-trivial: every case is a character-reference case; distinct by (context, text).",
     );
     rep.assume("frozen entity table = Python 3 html.entities.html5 (2231 names, identical to the WHATWG table)");
     report_known(ctx, &mut rep, &|v| replay(&ctx.strict_clone(), v));
@@ -337,6 +389,27 @@ pub fn run(ctx: &Ctx) -> Report {
         let r = check(&c, st);
         st.nontrivial(hash64(&c), || serde_json::to_value(&c).unwrap());
         st.label("xml5ever named");
+        r.map_err(|what| Failure { case: serde_json::to_value(&c).unwrap(), what })
+    });
+    all_done &= out.failures.is_empty();
+    rep.absorb(out);
+
+    // (3b) xml5ever: every ordered pair of reference-shaped pieces, in text and in an attribute value
+    const XPIECES: &[&str] = &[
+        "&#65;", "&#x41;", "&#X41;", "&#65", "&#x41", "&#;", "&#x;", "&#", "&#x", "&#xZ;", "&#Z;", "&amp;", "&amp", "&lt;", "&;", "&", "&x;",
+        "&unknown;", "&#0;", "&#1114112;", "&#xD800;", "&#133;", "&#x100000041;", "&#99999999999;", "&notin;", "&not", "x", "1", ";",
+    ];
+    let np = XPIECES.len() as u64;
+    let out = run_exhaustive(np * np * 2, |i, st| {
+        let attr = i % 2 == 1;
+        let k = i / 2;
+        let c = Case {
+            ctx: if attr { "xml-seq-attr".into() } else { "xml-seq-text".into() },
+            text: format!("{}\u{1}{}", XPIECES[(k % np) as usize], XPIECES[(k / np) as usize]),
+        };
+        let r = check(&c, st);
+        st.nontrivial(hash64(&c), || serde_json::to_value(&c).unwrap());
+        st.label("xml5ever reference pairs");
         r.map_err(|what| Failure { case: serde_json::to_value(&c).unwrap(), what })
     });
     all_done &= out.failures.is_empty();
